@@ -222,6 +222,7 @@ func translateFormulas(repo string, writeImp func(string, string, string)) {
 	b.WriteString(translateSqrtChain(repo))
 	b.WriteString(translateMsmInstances(repo))
 	b.WriteString(translateSelectors(repo))
+	b.WriteString(translatePrecompScalarMul(repo))
 	writeImp("Formulas.lean", "", b.String())
 }
 
